@@ -6,8 +6,8 @@ From GVL Require Import NList Wire.
 From GV_pipeline Require Import Model.
 Open Scope N_scope.
 
-Ltac prj := cbn [r_tcp r_setup r_ph r_active r_w r_queue r_wire r_con r_deliv r_hist r_lost upd_ctl upd_data].
-Ltac prjin H := cbn [r_tcp r_setup r_ph r_active r_w r_queue r_wire r_con r_deliv r_hist r_lost upd_ctl upd_data] in H.
+Ltac prj := cbn [r_tcp r_setup r_ph r_active r_w r_queue r_ring r_rp r_wp r_wire r_con r_deliv r_hist r_lost upd_ctl upd_data upd_ring].
+Ltac prjin H := cbn [r_tcp r_setup r_ph r_active r_w r_queue r_ring r_rp r_wp r_wire r_con r_deliv r_hist r_lost upd_ctl upd_data upd_ring] in H.
 
 (* ---------- small list facts ---------- *)
 Lemma nnth_Some_lt {A} (l : list A) i x : nnth i l = Some x -> i < nlen l.
@@ -140,25 +140,89 @@ Inductive inc_mf : list dentry -> Prop :=
 Definition ph_inv (r : rstate) : Prop :=
   match r_ph r with
   | PhPlaying => r_active r = true /\ exists b, r_w r = WOpen b
-  | _ => True
+  | PhStopReq => True
+  | _ => forall b, r_w r <> WClosed b
   end.
 
 Definition didxs (l : list dentry) : list N := map d_idx l.
 
+(* the packets that were pushed while the writer was open ("not late") *)
+Definition nl_i (l : list item) : list item := filter (fun x => negb (i_late x)) l.
+Definition nl_d (l : list dentry) : list dentry := filter (fun d => negb (d_late d)) l.
+
+(* the part of the deliveries that is ordered: over UDP the receiver's filter orders everything; over TCP
+   only what was pushed while the writer was open *)
+Definition ordered_part (r : rstate) : list dentry :=
+  if r_tcp r then nl_d (r_deliv r) else r_deliv r.
+
 Record rinv (c : cfg) (W : wlist) (r : rstate) : Prop := mkRinv {
   ri_su : NoDup (map snd (r_setup r));
-  ri_q : Forall (item_ok c W (r_setup r)) (r_queue r);
+  ri_q : Forall (item_ok c W (r_setup r)) (r_queue r) /\ Forall (fun x => i_late x = false) (r_queue r);
+  ri_r : Forall (item_ok c W (r_setup r)) (ritems (r_ring r)) /\ Forall (fun x => i_late x = true) (ritems (r_ring r));
   ri_w : Forall (item_ok c W (r_setup r)) (r_wire r);
   ri_d : Forall (dentry_ok c W) (r_deliv r);
-  ri_inc : inc_mf (r_deliv r);
-  ri_tcp : r_tcp r = true -> sinc (didxs (r_deliv r) ++ idxs (r_wire r) ++ idxs (r_queue r));
+  ri_inc : inc_mf (ordered_part r);
+  ri_tcp : r_tcp r = true -> sinc (didxs (nl_d (r_deliv r)) ++ idxs (nl_i (r_wire r)) ++ idxs (r_queue r));
   ri_cap : nlen (r_queue r) <= c_Q c;
   ri_ph : ph_inv r;
   ri_cons : forall n, cnt n (r_hist r) =
-     (cnt n (didxs (r_deliv r)) + cnt n (r_lost r) + cnt n (idxs (r_wire r)) + cnt n (idxs (r_queue r)))%nat;
-  ri_hist : Forall (fun i => i < nlen W) (r_hist r) }.
+     (cnt n (didxs (r_deliv r)) + cnt n (r_lost r) + cnt n (idxs (r_wire r)) + cnt n (idxs (r_queue r))
+      + cnt n (idxs (ritems (r_ring r))))%nat;
+  ri_hist : Forall (fun i => i < nlen W) (r_hist r) /\ sinc (r_hist r);
+  ri_ropen : (forall b, r_w r <> WClosed b) -> ritems (r_ring r) = [] }.
 
 Definition sinv (c : cfg) (st : state) : Prop := Forall (rinv c (s_written st)) (s_readers st).
+
+(* ---------- ring slots ---------- *)
+Lemma ritems_repeat k : ritems (repeat None k) = [].
+Proof. induction k; cbn; auto. Qed.
+Lemma ritems_nrep n : ritems (nrep None n) = [].
+Proof. rewrite nrep_repeat. apply ritems_repeat. Qed.
+
+Lemma ritems_nset_some ring i x :
+  nnth i ring = Some None ->
+  (forall n, cnt n (idxs (ritems (nset i (Some x) ring))) = (cnt n [i_idx x] + cnt n (idxs (ritems ring)))%nat) /\
+  (forall P : item -> Prop, P x -> Forall P (ritems ring) -> Forall P (ritems (nset i (Some x) ring))).
+Proof.
+  revert i; induction ring as [|o t IH]; intros i H; cbn [nnth] in H; [discriminate|].
+  cbn [nset]. destruct (N.eqb_spec i 0) as [Hi|Hi].
+  - inversion H; subst o. cbn [ritems]. split.
+    + intros n. cbn [idxs map]. now rewrite (cnt_cons n (i_idx x)).
+    + intros P Hx HF. now constructor.
+  - destruct (IH _ H) as (IH1 & IH2). destruct o as [y|]; cbn [ritems].
+    + split.
+      * intros n. cbn [idxs map]. rewrite (cnt_cons n (i_idx y)), (cnt_cons n (i_idx y) (map i_idx (ritems t))).
+        specialize (IH1 n). unfold idxs in IH1. lia.
+      * intros P Hx HF. inversion HF; subst. constructor; auto.
+    + split; auto.
+Qed.
+
+Lemma ritems_nset_none ring i x :
+  nnth i ring = Some (Some x) ->
+  (forall n, cnt n (idxs (ritems ring)) = (cnt n [i_idx x] + cnt n (idxs (ritems (nset i None ring))))%nat) /\
+  (forall P : item -> Prop, Forall P (ritems ring) -> P x /\ Forall P (ritems (nset i None ring))).
+Proof.
+  revert i; induction ring as [|o t IH]; intros i H; cbn [nnth] in H; [discriminate|].
+  cbn [nset]. destruct (N.eqb_spec i 0) as [Hi|Hi].
+  - inversion H; subst o. cbn [ritems]. split.
+    + intros n. cbn [idxs map]. now rewrite (cnt_cons n (i_idx x)).
+    + intros P HF. now inversion HF.
+  - destruct (IH _ H) as (IH1 & IH2). destruct o as [y|]; cbn [ritems].
+    + split.
+      * intros n. cbn [idxs map]. rewrite (cnt_cons n (i_idx y)), (cnt_cons n (i_idx y) (map i_idx (ritems (nset (N.pred i) None t)))).
+        specialize (IH1 n). unfold idxs in IH1. lia.
+      * intros P HF. inversion HF; subst. destruct (IH2 P H3). split; auto.
+    + split; auto.
+Qed.
+
+Lemma nl_i_snoc l x : nl_i (l ++ [x]) = nl_i l ++ (if i_late x then [] else [x]).
+Proof. unfold nl_i. rewrite filter_app. cbn [filter]. now destruct (i_late x). Qed.
+Lemma nl_d_snoc l d : nl_d (l ++ [d]) = nl_d l ++ (if d_late d then [] else [d]).
+Proof. unfold nl_d. rewrite filter_app. cbn [filter]. now destruct (d_late d). Qed.
+Lemma nl_i_all l : Forall (fun x => i_late x = false) l -> nl_i l = l.
+Proof.
+  unfold nl_i. induction 1 as [|x t Hx _ IH]; cbn [filter]; [reflexivity|]. rewrite Hx. cbn. now rewrite IH.
+Qed.
 
 (* ---------- monotonicity in the written list ---------- *)
 Lemma item_ok_mono c W e su x : item_ok c W su x -> item_ok c (W ++ [e]) su x.
@@ -170,23 +234,28 @@ Proof.
   intros (p0 & fs & s & H1 & H2). exists p0, fs, s. split; [now apply nnth_app_l|exact H2].
 Qed.
 
+Lemma items_mono c W e su l : Forall (item_ok c W su) l -> Forall (item_ok c (W ++ [e]) su) l.
+Proof. intros H. eapply Forall_impl; [|exact H]. intros; now apply item_ok_mono. Qed.
+
 Lemma rinv_mono c W e r : rinv c W r -> rinv c (W ++ [e]) r.
 Proof.
-  intros [H1 H2 H3 H4 H5 H6 H7 H8 H9 H10]. constructor; auto.
-  - eapply Forall_impl; [|exact H2]. intros; now apply item_ok_mono.
-  - eapply Forall_impl; [|exact H3]. intros; now apply item_ok_mono.
+  intros [H1 (H2 & H2') (Hr & Hr') H3 H4 H5 H6 H7 H8 H9 (H10 & H10') H11]. constructor; auto.
+  - split; [now apply items_mono|exact H2'].
+  - split; [now apply items_mono|exact Hr'].
+  - now apply items_mono.
   - eapply Forall_impl; [|exact H4]. intros; now apply dentry_ok_mono.
-  - eapply Forall_impl; [|exact H10]. intros a Ha. cbv beta in Ha. rewrite nlen_app. cbn [nlen]. lia.
+  - split; [|exact H10']. eapply Forall_impl; [|exact H10]. intros a Ha. cbv beta in Ha. rewrite nlen_app. cbn [nlen]. lia.
 Qed.
 
 (* ---------- control steps ---------- *)
 Lemma rinv_ctl_same c W r ph a w con :
   rinv c W r ->
-  (ph = PhPlaying -> a = true /\ exists b, w = WOpen b) ->
+  ph_inv (upd_ctl r ph a w con) ->
+  ((forall b, r_w r <> WClosed b) \/ w = r_w r) ->
   rinv c W (upd_ctl r ph a w con).
 Proof.
-  intros [H1 H2 H3 H4 H5 H6 H7 H8 H9 H10] Hp. constructor; prj; auto.
-  unfold ph_inv; prj. destruct ph; auto.
+  intros [H1 H2 Hr H3 H4 H5 H6 H7 H8 H9 H10 H11] Hp Hw. constructor; prj; auto.
+  intros Hn. destruct Hw as [Hw| ->]; auto.
 Qed.
 
 Lemma idxs_app a b : idxs (a ++ b) = idxs a ++ idxs b.
@@ -194,54 +263,70 @@ Proof. apply map_app. Qed.
 Lemma didxs_app a b : didxs (a ++ b) = didxs a ++ didxs b.
 Proof. apply map_app. Qed.
 
-Lemma rinv_ctl c W k r r' : rinv c W r -> r_ctl k r = Some r' -> rinv c W r'.
+Ltac phi := unfold ph_inv; prj; auto; try (intros; discriminate).
+Ltac fin H5 H11 := try (unfold ordered_part in *; prj; exact H5); try (intros _; apply H11; intros; discriminate).
+Ltac nc E := left; intros ?; rewrite E; discriminate.
+
+Lemma rinv_ctl c W k r r' : rinv c W r -> r_ctl c k r = Some r' -> rinv c W r'.
 Proof.
-  intros Hi H. pose proof Hi as [H1 H2 H3 H4 H5 H6 H7 H8 H9 H10].
+  intros Hi H. pose proof Hi as [H1 (H2 & H2') (Hr & Hr') H3 H4 H5 H6 H7 H8 H9 (H10 & H10') H11].
   destruct k; cbn [r_ctl] in H.
-  - (* playreq *) unfold r_playreq in H. destruct (r_ph r), (r_w r); try discriminate.
-    destruct (r_active r); [discriminate|]. inversion H; subst. apply rinv_ctl_same; auto. discriminate.
-  - unfold r_create in H. destruct (r_ph r), (r_w r); try discriminate.
-    inversion H; subst. apply rinv_ctl_same; auto. discriminate.
-  - unfold r_activate in H. destruct (r_ph r), (r_w r) as [|st|st]; try discriminate.
-    destruct (r_tcp r || st); [|discriminate]. inversion H; subst. apply rinv_ctl_same; auto. discriminate.
+  - (* playreq *) unfold r_playreq in H. destruct (r_ph r), (r_w r) eqn:Ew; try discriminate.
+    destruct (r_active r); [discriminate|]. inversion H; subst. apply rinv_ctl_same; auto. phi.
+  - unfold r_create in H. destruct (r_ph r), (r_w r) eqn:Ew; try discriminate.
+    inversion H; subst. apply rinv_ctl_same; auto; [phi|nc Ew].
+  - unfold r_activate in H. destruct (r_ph r), (r_w r) as [|st|st] eqn:Ew; try discriminate.
+    destruct (r_tcp r || st); [|discriminate]. inversion H; subst. apply rinv_ctl_same; auto. phi.
   - unfold r_start in H. destruct (r_w r) as [|[|]|] eqn:Ew; try discriminate.
-    inversion H; subst. apply rinv_ctl_same; auto.
-    intros Hp. unfold ph_inv in H8. rewrite Hp in H8. destruct H8 as (Ha & _). split; [exact Ha|eauto].
-  - unfold r_playdone in H. destruct (r_ph r), (r_w r) as [|st|st]; try discriminate.
+    inversion H; subst. apply rinv_ctl_same; auto; [|nc Ew].
+    unfold ph_inv in *. prj. destruct (r_ph r); auto; try discriminate.
+    destruct H8 as (Ha & _). split; eauto.
+  - unfold r_playdone in H. destruct (r_ph r), (r_w r) as [|st|st] eqn:Ew; try discriminate.
     destruct (r_active r); [|discriminate]. inversion H; subst. apply rinv_ctl_same; auto.
-    intros _. split; eauto.
+    unfold ph_inv; prj. split; eauto.
   - unfold r_stopreq in H. destruct (r_ph r); try discriminate; inversion H; subst;
-      apply rinv_ctl_same; auto; discriminate.
-  - (* drain *) unfold r_drain in H.
-    destruct (r_w r) as [|[|]|[|]], (r_queue r) as [|x q] eqn:Eq; try discriminate; inversion H; subst;
-      (inversion H2; subst; constructor; prj; auto;
-       [ apply Forall_app; split; auto
-       | intros Ht; specialize (H6 Ht); rewrite idxs_app; cbn [idxs map app] in *; now rewrite <- !app_assoc
-       | cbn [nlen] in H7; lia
-       | intros n; rewrite (H9 n), idxs_app, !cnt_app; cbn [idxs map];
-         rewrite (cnt_cons n (i_idx x) (map i_idx q)); fold (idxs q); lia ]).
-  - (* closew *) unfold r_closew in H. destruct (r_ph r) eqn:Ep, (r_w r) as [|st|st]; try discriminate.
-    inversion H; subst. constructor; prj; auto.
-    + intros Ht. specialize (H6 Ht). rewrite app_nil_r. rewrite app_assoc in H6. now apply sinc_drop_tail in H6.
-    + cbn [nlen]; lia.
-    + unfold ph_inv; prj. auto.
-    + intros n. rewrite (H9 n), !cnt_app. cbn [idxs map cnt count_occ]. lia.
-  - (* nilw *) unfold r_nilw in H. destruct (r_ph r) eqn:Ep, (r_w r) as [|st|st]; try discriminate.
-    inversion H; subst. constructor; prj; auto.
-    + intros Ht. specialize (H6 Ht). rewrite app_nil_r. rewrite app_assoc in H6. now apply sinc_drop_tail in H6.
-    + cbn [nlen]; lia.
-    + unfold ph_inv; prj. auto.
-    + intros n. rewrite (H9 n), !cnt_app. cbn [idxs map cnt count_occ]. lia.
-  - unfold r_deact in H. destruct (r_ph r); try discriminate. inversion H; subst.
-    apply rinv_ctl_same; auto. discriminate.
-  - unfold r_stopdone in H. destruct (r_ph r), (r_w r); try discriminate.
+      apply rinv_ctl_same; auto; phi.
+  - (* drain *) unfold r_drain in H. destruct (r_w r) as [|[|]|[|]] eqn:Ew; try discriminate.
+    + destruct (r_queue r) as [|x q] eqn:Eq; [discriminate|]. inversion H; subst.
+      inversion H2; subst. inversion H2'; subst. constructor; prj; auto; fin H5 H11.
+      * apply Forall_app; split; auto.
+      * intros Ht. specialize (H6 Ht). rewrite nl_i_snoc. match goal with Hl : i_late x = false |- _ => rewrite Hl end.
+        rewrite idxs_app. cbn [idxs map app] in *. now rewrite <- !app_assoc.
+      * cbn [nlen] in H7. lia.
+      * intros n. rewrite (H9 n), idxs_app, !cnt_app. cbn [idxs map].
+        rewrite (cnt_cons n (i_idx x) (map i_idx q)). unfold idxs. lia.
+    + destruct (nnth (r_rp r) (r_ring r)) as [[x|]|] eqn:En; try discriminate. inversion H; subst.
+      destruct (ritems_nset_none _ _ _ En) as (C1 & C2).
+      destruct (C2 _ Hr) as (Hx & Hr2). destruct (C2 _ Hr') as (Hx' & Hr2').
+      constructor; prj; auto; fin H5 H11.
+      * apply Forall_app; split; auto.
+      * intros Ht. specialize (H6 Ht). rewrite nl_i_snoc, Hx'. now rewrite app_nil_r.
+      * intros n. rewrite (H9 n), (C1 n), idxs_app, !cnt_app. cbn [idxs map]. unfold idxs. lia.
+      * intros Hn. exfalso. apply (Hn true). exact Ew.
+  - (* closew *) unfold r_closew in H. destruct (r_ph r) eqn:Ep, (r_w r) as [|st|st] eqn:Ew; try discriminate.
+    inversion H; subst. constructor; prj; auto; fin H5 H11.
+    + rewrite ritems_nrep. split; constructor.
+    + intros Ht. specialize (H6 Ht). cbn [idxs map]. rewrite app_nil_r. rewrite app_assoc in H6. now apply sinc_drop_tail in H6.
+    + cbn [nlen]. lia.
+    + phi.
+    + intros n. rewrite (H9 n), !cnt_app, ritems_nrep. rewrite (H11 ltac:(intros b; discriminate)).
+      cbn [idxs map cnt count_occ]. lia.
+    + intros Hn. apply ritems_nrep.
+  - (* nilw *) unfold r_nilw in H. destruct (r_ph r) eqn:Ep, (r_w r) as [|st|st] eqn:Ew; try discriminate.
+    inversion H; subst. constructor; prj; auto; fin H5 H11.
+    + cbn [ritems]. split; constructor.
+    + phi.
+    + intros n. rewrite (H9 n), !cnt_app. cbn [ritems idxs map cnt count_occ]. lia.
+  - unfold r_deact in H. destruct (r_ph r) eqn:Ep; try discriminate. inversion H; subst.
+    apply rinv_ctl_same; auto. phi.
+  - unfold r_stopdone in H. destruct (r_ph r), (r_w r) eqn:Ew; try discriminate.
     destruct (r_active r); [discriminate|].
     destruct (r_tcp r); [destruct (r_wire r); [|discriminate]|]; inversion H; subst;
-      apply rinv_ctl_same; auto; discriminate.
+      apply rinv_ctl_same; auto; phi.
   - (* cclose *) unfold r_cclose in H. destruct (r_ph r) eqn:Ep; try discriminate.
-    inversion H; subst. constructor; prj; auto.
-    + intros Ht. specialize (H6 Ht). cbn [idxs map app]. now apply sinc_drop_mid in H6.
-    + unfold ph_inv; prj. auto.
+    inversion H; subst. constructor; prj; auto; fin H5 H11.
+    + intros Ht. specialize (H6 Ht). cbn [nl_i filter idxs map app]. now apply sinc_drop_mid in H6.
+    + phi.
     + intros n. rewrite (H9 n), !cnt_app. cbn [idxs map cnt count_occ]. lia.
 Qed.
 
@@ -259,13 +344,15 @@ Lemma dentries_idx_lt c W l : Forall (dentry_ok c W) l -> Forall (fun i => i < n
 Proof.
   induction 1 as [|x t Hx _ IH]; cbn [didxs map]; constructor; [now apply dentry_idx_lt in Hx|exact IH].
 Qed.
+Lemma Forall_filter {A} (P : A -> Prop) g l : Forall P l -> Forall P (filter g l).
+Proof. induction 1; cbn [filter]; [constructor|]. destruct (g x); auto. Qed.
 
 (* the demultiplexer finds exactly the media and format the packet was written to *)
 Lemma demux_ok c W su x :
   NoDup (map snd su) -> item_ok c W su x ->
   exists fs s, media_of su (i_chan x) = Some (i_m x) /\ nnth (i_m x) (c_medias c) = Some fs /\
     find_fmt fs (p_pt (i_pkt x)) = Some (i_f x, s) /\
-    dentry_ok c W (mkD (i_m x) (i_f x) (i_idx x) (i_pkt x)).
+    dentry_ok c W (mkD (i_m x) (i_f x) (i_idx x) (i_late x) (i_pkt x)).
 Proof.
   intros Hnd (p0 & fs & s & H1 & H2 & H3 & H4 & H5). exists fs, s.
   split; [now apply chan_media|]. split; [exact H2|]. split.
@@ -282,7 +369,7 @@ Qed.
 
 Lemma rinv_arrive c W i r r' od : rinv c W r -> r_arrive c i r = Some (r', od) -> rinv c W r'.
 Proof.
-  intros Hi H. pose proof Hi as [H1 H2 H3 H4 H5 H6 H7 H8 H9 H10].
+  intros Hi H. pose proof Hi as [H1 (H2 & H2') (Hr & Hr') H3 H4 H5 H6 H7 H8 H9 (H10 & H10') H11].
   unfold r_arrive in H. destruct (r_con r); cbn [negb] in H; [|discriminate].
   destruct (r_tcp r && negb (i =? 0)) eqn:Eti; [discriminate|].
   destruct (take_nth i (r_wire r)) as [[x wi]|] eqn:Et; [|discriminate].
@@ -292,38 +379,44 @@ Proof.
     now apply nlen_nil_iff. }
   rewrite Ew in H3. apply Forall_app in H3. destruct H3 as (H3a & H3b). inversion H3b as [|? ? Hx H3b']; subst.
   assert (Hdrop : rinv c W (upd_data r (r_queue r) (a ++ b) (r_deliv r) (r_hist r) (r_lost r ++ [i_idx x]))).
-  { constructor; prj; auto.
+  { constructor; prj; auto; fin H5 H11.
     - apply Forall_app; auto.
-    - intros Ht. specialize (H6 Ht). rewrite Ew in H6. rewrite (Ha0 Ht) in *. cbn [app idxs map] in *.
-      exact (sinc_drop_mid _ [i_idx x] _ H6).
+    - intros Ht. specialize (H6 Ht). rewrite Ew in H6. rewrite (Ha0 Ht) in *. cbn [app] in *.
+      unfold nl_i in *. cbn [filter] in H6. destruct (i_late x); cbn [negb] in H6; [exact H6|].
+      cbn [idxs map app] in H6. exact (sinc_drop_mid _ [i_idx x] _ H6).
     - intros n. rewrite (H9 n), Ew, !idxs_app, !cnt_app. cbn [idxs map].
       rewrite (cnt_cons n (i_idx x) (map i_idx b)). unfold idxs. lia. }
   destruct (demux_ok _ _ _ _ H1 Hx) as (fs & s & D1 & D2 & D3 & D4).
   rewrite D1, D2, D3 in H.
   destruct (r_tcp r || newer (r_deliv r) (i_m x) (i_f x) (i_idx x)) eqn:Enew;
     inversion H; subst; [|exact Hdrop].
-  constructor; prj; auto.
+  constructor; prj; auto; fin H5 H11.
   - apply Forall_app; auto.
   - apply Forall_app; auto.
-  - apply (inc_snoc _ (mkD (i_m x) (i_f x) (i_idx x) (i_pkt x))); [exact H5|]. cbn [d_m d_f d_idx].
-    destruct (r_tcp r) eqn:Et'; [|exact Enew].
-    apply newer_of_all_lt. specialize (H6 eq_refl). rewrite Ew, (Ha0 eq_refl) in H6.
-    cbn [app idxs map] in H6. apply sinc_app in H6. destruct H6 as (_ & _ & H6).
-    eapply Forall_impl; [|exact H6]. intros j Hj. cbv beta in Hj. now inversion Hj.
+  - unfold ordered_part in *; prj. destruct (r_tcp r) eqn:Et'.
+    + rewrite nl_d_snoc. cbn [d_late]. destruct (i_late x) eqn:El; [now rewrite app_nil_r|].
+      apply (inc_snoc _ (mkD (i_m x) (i_f x) (i_idx x) false (i_pkt x))); [exact H5|]. cbn [d_m d_f d_idx].
+      apply newer_of_all_lt. specialize (H6 eq_refl). rewrite Ew, (Ha0 eq_refl) in H6.
+      cbn [app] in H6. unfold nl_i in H6. cbn [filter] in H6. rewrite El in H6. cbn [negb idxs map] in H6.
+      apply sinc_app in H6. destruct H6 as (_ & _ & H6).
+      eapply Forall_impl; [|exact H6]. intros j Hj. cbv beta in Hj. now inversion Hj.
+    + apply (inc_snoc _ (mkD (i_m x) (i_f x) (i_idx x) (i_late x) (i_pkt x))); [exact H5|]. exact Enew.
   - intros Ht. specialize (H6 Ht). rewrite Ew, (Ha0 Ht) in H6. rewrite (Ha0 Ht).
-    rewrite didxs_app. cbn [app idxs map didxs d_idx] in *. now rewrite <- app_assoc.
+    rewrite nl_d_snoc. cbn [d_late app] in *. unfold nl_i in *. cbn [filter] in H6.
+    destruct (i_late x); cbn [negb] in H6; [now rewrite app_nil_r|].
+    rewrite didxs_app. cbn [idxs map didxs d_idx app] in *. now rewrite <- app_assoc.
   - intros n. rewrite (H9 n), Ew, !idxs_app, didxs_app, !cnt_app. cbn [idxs map didxs d_idx].
     rewrite (cnt_cons n (i_idx x) (map i_idx b)). unfold idxs. lia.
 Qed.
 
 Lemma rinv_lose c W i r r' : rinv c W r -> r_lose i r = Some r' -> rinv c W r'.
 Proof.
-  intros Hi H. pose proof Hi as [H1 H2 H3 H4 H5 H6 H7 H8 H9 H10].
+  intros Hi H. pose proof Hi as [H1 (H2 & H2') (Hr & Hr') H3 H4 H5 H6 H7 H8 H9 (H10 & H10') H11].
   unfold r_lose in H. destruct (r_tcp r) eqn:Et; [discriminate|].
   destruct (take_nth i (r_wire r)) as [[x wi]|] eqn:E; [|discriminate].
   destruct (take_nth_split _ _ _ _ E) as (a & b & Ew & -> & Hla). inversion H; subst.
   rewrite Ew in H3. apply Forall_app in H3. destruct H3 as (H3a & H3b). inversion H3b; subst.
-  constructor; prj; auto.
+  constructor; prj; auto; fin H5 H11.
   - apply Forall_app; auto.
   - intros Ht. congruence.
   - intros n. rewrite (H9 n), Ew, !idxs_app, !cnt_app. cbn [idxs map].
@@ -340,26 +433,161 @@ Proof.
   intros Hi Hm Hf H. unfold r_push in H.
   destruct (r_active r); [|inversion H; subst; now apply rinv_mono].
   destruct (chan_of (r_setup r) m) as [ch|] eqn:Ech; [|inversion H; subst; now apply rinv_mono].
-  assert (Hpush : nlen (r_queue r) <? c_Q c = true ->
-    rinv c (W ++ [(m, f, p)])
-      (upd_data r (r_queue r ++ [mkItem ch m f (nlen W) (set_ssrc p s)]) (r_wire r) (r_deliv r)
-                (r_hist r ++ [nlen W]) (r_lost r))).
-  { intros Hlt. pose proof Hi as [_ G2 G3 G4 _ G6 _ _ _ _].
-    apply (rinv_mono _ _ (m, f, p)) in Hi.
-    pose proof Hi as [H1 H2 H3 H4 H5 H6 H7 H8 H9 H10].
-    assert (Hnew : item_ok c (W ++ [(m, f, p)]) (r_setup r) (mkItem ch m f (nlen W) (set_ssrc p s))).
-    { exists p, fs, s. cbn [i_idx i_m i_f i_pkt i_chan]. split; [apply nnth_app_len|auto]. }
-    constructor; prj; auto.
-    - apply Forall_app; auto.
-    - intros Ht. specialize (G6 Ht). rewrite idxs_app, !app_assoc. cbn [idxs map i_idx].
+  pose proof Hi as [_ (G2 & _) _ G3 G4 _ G6 _ _ _ (G10 & _) _].
+  assert (Hnew : forall late, item_ok c (W ++ [(m, f, p)]) (r_setup r) (mkItem ch m f (nlen W) late (set_ssrc p s))).
+  { intros late. exists p, fs, s. cbn [i_idx i_m i_f i_pkt i_chan]. split; [apply nnth_app_len|auto]. }
+  assert (Hhist : forall h, Forall (fun i => i < nlen W) h -> sinc h ->
+            Forall (fun i => i < nlen (W ++ [(m, f, p)])) (h ++ [nlen W]) /\ sinc (h ++ [nlen W])).
+  { intros h Hb Hs. split.
+    - apply Forall_app; split.
+      + eapply Forall_impl; [|exact Hb]. intros a Ha. cbv beta in Ha. rewrite nlen_app. cbn [nlen]. lia.
+      + constructor; [|constructor]. rewrite nlen_app. cbn [nlen]. lia.
+    - apply sinc_snoc. split; assumption. }
+  apply (rinv_mono _ _ (m, f, p)) in Hi.
+  pose proof Hi as [H1 (H2 & H2') (Hr & Hr') H3 H4 H5 H6 H7 H8 H9 (H10 & H10') H11].
+  destruct (r_w r) as [|st|st] eqn:Ew; [inversion H; subst; exact Hi| |].
+  - destruct (nlen (r_queue r) <? c_Q c) eqn:Elt; inversion H; subst; [|exact Hi].
+    constructor; prj; auto; fin H5 H11.
+    + split; apply Forall_app; split; auto.
+    + intros Ht. specialize (G6 Ht). rewrite idxs_app, !app_assoc. cbn [idxs map i_idx].
       apply sinc_snoc. split; [now rewrite <- !app_assoc|].
       rewrite !Forall_app. repeat split.
-      + now apply dentries_idx_lt in G4.
-      + now apply items_idx_lt in G3.
-      + now apply items_idx_lt in G2.
-    - rewrite nlen_app. cbn [nlen]. lia.
-    - intros n. rewrite idxs_app, !cnt_app, (H9 n). cbn [idxs map i_idx]. lia.
-    - apply Forall_app; split; [exact H10|]. constructor; [|constructor]. rewrite nlen_app. cbn [nlen]. lia. }
-  destruct (r_w r); [inversion H; subst; now apply rinv_mono| |];
-    (destruct (nlen (r_queue r) <? c_Q c) eqn:Elt; inversion H; subst; [now apply Hpush|now apply rinv_mono]).
+      * apply dentries_idx_lt with (c := c). unfold nl_d. now apply Forall_filter.
+      * apply items_idx_lt with (c := c) (su := r_setup r). unfold nl_i. now apply Forall_filter.
+      * now apply items_idx_lt in G2.
+    + rewrite nlen_app. cbn [nlen]. lia.
+    + intros n. rewrite idxs_app, !cnt_app, (H9 n). cbn [idxs map i_idx]. lia.
+  - destruct (nnth (r_wp r) (r_ring r)) as [[y|]|] eqn:En; inversion H; subst; try exact Hi.
+    destruct (ritems_nset_some _ _ (mkItem ch m f (nlen W) true (set_ssrc p s)) En) as (C1 & C2).
+    constructor; prj; auto; fin H5 H11.
+    + intros n. rewrite !cnt_app, (H9 n), (C1 n). cbn [i_idx]. lia.
+    + intros Hn. exfalso. apply (Hn st). exact Ew.
 Qed.
+
+(* ---------- lifting to the reader list ---------- *)
+Lemma upd_nth_Forall {A} (P Q : A -> Prop) i g l l' :
+  upd_nth i g l = Some l' -> Forall P l -> (forall x, P x -> Q x) ->
+  (forall x y, P x -> g x = Some y -> Q y) -> Forall Q l'.
+Proof.
+  revert i l'; induction l as [|x t IH]; intros i l' H HF HPQ Hg; cbn [upd_nth] in H; [discriminate|].
+  inversion HF as [|? ? Hx Ht]; subst.
+  destruct (i =? 0).
+  - destruct (g x) as [y|] eqn:E; [|discriminate]. inversion H; subst. constructor; eauto.
+    eapply Forall_impl; [|exact Ht]. auto.
+  - destruct (upd_nth (N.pred i) g t) as [t'|] eqn:E; [|discriminate]. inversion H; subst.
+    constructor; eauto.
+Qed.
+
+Lemma Forall_nnth {A} (P : A -> Prop) l i x : Forall P l -> nnth i l = Some x -> P x.
+Proof.
+  revert i; induction l as [|y t IH]; intros i HF H; cbn [nnth] in H; [discriminate|].
+  inversion HF; subst. destruct (i =? 0); [inversion H; now subst|eauto].
+Qed.
+
+Lemma upd_nth_nnth {A} i (g : A -> option A) l l' k :
+  upd_nth i g l = Some l' ->
+  nnth k l' = if k =? i then match nnth i l with Some x => g x | None => None end else nnth k l.
+Proof.
+  revert i l' k; induction l as [|x t IH]; intros i l' k H; cbn [upd_nth] in H; [discriminate|].
+  destruct (N.eqb_spec i 0) as [->|Hi].
+  - destruct (g x) as [y|] eqn:E; [|discriminate]. inversion H; subst. cbn [nnth].
+    change (0 =? 0) with true. cbv iota.
+    destruct (N.eqb_spec k 0) as [->|Hk]; [now rewrite E|reflexivity].
+  - destruct (upd_nth (N.pred i) g t) as [t'|] eqn:E; [|discriminate]. inversion H; subst.
+    cbn [nnth]. destruct (N.eqb_spec i 0); [lia|].
+    destruct (N.eqb_spec k 0) as [->|Hk].
+    + destruct (N.eqb_spec 0 i); [lia|reflexivity].
+    + rewrite (IH _ _ (N.pred k) E).
+      destruct (N.eqb_spec (N.pred k) (N.pred i)), (N.eqb_spec k i); try lia; reflexivity.
+Qed.
+
+Lemma fanout_inv c W m f p s fs k rs rs' fl :
+  Forall (rinv c W) rs ->
+  nnth m (c_medias c) = Some fs -> find_fmt fs (p_pt p) = Some (f, s) ->
+  fanout c m f (nlen W) (set_ssrc p s) k rs = (rs', fl) ->
+  Forall (rinv c (W ++ [(m, f, p)])) rs'.
+Proof.
+  intros HF Hm Hf. revert k rs' fl; induction HF as [|r t Hr _ IH]; intros k rs' fl H; cbn [fanout] in H.
+  - inversion H; subst. constructor.
+  - destruct (r_push c m f (nlen W) (set_ssrc p s) r) as [r' full] eqn:Ep.
+    destruct (fanout c m f (nlen W) (set_ssrc p s) (k + 1) t) as [t' fl'] eqn:Et.
+    inversion H; subst. constructor; [eapply rinv_push; eauto|eapply IH; eauto].
+Qed.
+
+Lemma fanout_nth c m f idx p k0 rs rs' fl :
+  fanout c m f idx p k0 rs = (rs', fl) ->
+  Forall (fun j => k0 <= j) fl /\
+  forall k, nnth k rs' = option_map (fun r => fst (r_push c m f idx p r)) (nnth k rs) /\
+            forall r, nnth k rs = Some r -> (In (k0 + k) fl <-> snd (r_push c m f idx p r) = true).
+Proof.
+  revert k0 rs' fl; induction rs as [|r t IH]; intros k0 rs' fl H; cbn [fanout] in H.
+  - inversion H; subst. split; [constructor|]. intros k. split; [reflexivity|discriminate].
+  - destruct (r_push c m f idx p r) as [r' full] eqn:Ep.
+    destruct (fanout c m f idx p (k0 + 1) t) as [t' fl'] eqn:Et.
+    destruct (IH _ _ _ Et) as (Hge & Hk). inversion H; subst. split.
+    + assert (Forall (fun j => k0 <= j) fl') by (eapply Forall_impl; [|exact Hge]; intros; cbv beta in *; lia).
+      destruct full; [constructor; [lia|assumption]|assumption].
+    + intros k. cbn [nnth]. destruct (N.eqb_spec k 0) as [->|Hk0].
+      * cbn [option_map]. rewrite Ep. split; [reflexivity|]. intros r0 Hr0. inversion Hr0; subst.
+        rewrite Ep. cbn [snd]. rewrite N.add_0_r. split.
+        -- intros Hin. destruct full; [reflexivity|]. exfalso.
+           rewrite Forall_forall in Hge. specialize (Hge _ Hin). lia.
+        -- intros ->. now left.
+      * destruct (Hk (N.pred k)) as (Hk1 & Hk2). split; [exact Hk1|].
+        intros r0 Hr0. specialize (Hk2 _ Hr0). replace (k0 + 1 + N.pred k) with (k0 + k) in Hk2 by lia.
+        rewrite <- Hk2. destruct full; [|reflexivity]. split; [intros [Heq|Hin]; [lia|exact Hin]|now right].
+Qed.
+
+Lemma list_eqb_eq a b : list_eqb a b = true -> a = b.
+Proof.
+  unfold list_eqb. revert b; induction a as [|x t IH]; intros [|y u]; cbn [nlen combine forallb]; intros H;
+    try reflexivity; try (apply andb_prop in H; destruct H as (H & _); exfalso; lia).
+  apply andb_prop in H. destruct H as (Hl & H). apply andb_prop in H. destruct H as (Hxy & H).
+  cbn [fst snd] in Hxy. f_equal; [lia|]. apply IH. apply andb_true_intro. split; [lia|exact H].
+Qed.
+
+(* ---------- every step preserves the invariant ---------- *)
+Theorem step_inv c st s st' : sinv c st -> step c st s = Some st' -> sinv c st'.
+Proof.
+  unfold sinv. intros Hi H. destruct s as [m p full|k r|r i o|r i]; cbn [step] in H.
+  - unfold write in H. destruct (nnth m (c_medias c)) as [fs|] eqn:Em; [|discriminate].
+    destruct (find_fmt fs (p_pt p)) as [[f s]|] eqn:Ef; [|discriminate].
+    destruct (fanout c m f (nlen (s_written st)) (set_ssrc p s) 0 (s_readers st)) as [rs fl] eqn:Efo.
+    destruct (list_eqb full fl); [|discriminate]. inversion H; subst. cbn [s_written s_readers].
+    eapply fanout_inv; eauto.
+  - destruct (upd_nth r (r_ctl c k) (s_readers st)) as [rs|] eqn:E; [|discriminate]. inversion H; subst.
+    cbn [s_written s_readers]. eapply upd_nth_Forall; [exact E|exact Hi|auto|]. intros; eapply rinv_ctl; eauto.
+  - destruct (nnth r (s_readers st)) as [x|] eqn:En; [|discriminate].
+    destruct (r_arrive c i x) as [[x' d]|] eqn:Ea; [|discriminate].
+    destruct (obs_match o d); [|discriminate].
+    destruct (upd_nth r (fun _ => Some x') (s_readers st)) as [rs|] eqn:E; [|discriminate]. inversion H; subst.
+    cbn [s_written s_readers]. pose proof (Forall_nnth _ _ _ _ Hi En) as Hx.
+    pose proof (rinv_arrive _ _ _ _ _ _ Hx Ea) as Hx'.
+    eapply upd_nth_Forall; [exact E|exact Hi|auto|]. intros ? y _ Hy. inversion Hy; now subst.
+  - destruct (upd_nth r (r_lose i) (s_readers st)) as [rs|] eqn:E; [|discriminate]. inversion H; subst.
+    cbn [s_written s_readers]. eapply upd_nth_Forall; [exact E|exact Hi|auto|]. intros; eapply rinv_lose; eauto.
+Qed.
+
+Theorem exec_inv c steps : forall st st', sinv c st -> exec c st steps = Some st' -> sinv c st'.
+Proof.
+  induction steps as [|s t IH]; intros st st' Hi H; cbn [exec] in H; [inversion H; now subst|].
+  destruct (step c st s) as [st1|] eqn:E; [|discriminate]. eapply IH; [|exact H]. eapply step_inv; eauto.
+Qed.
+
+(* initial states: any number of readers, each with any transport and any set of set-up medias whose
+   channels (ports) are pairwise distinct *)
+Definition readers_ok (rs : list rstate) : Prop :=
+  Forall (fun r => exists tcp su, r = new_reader tcp su /\ NoDup (map snd su)) rs.
+
+Lemma init_inv c rs : readers_ok rs -> sinv c (init rs).
+Proof.
+  unfold sinv, init, readers_ok. cbn [s_written s_readers]. intros H.
+  eapply Forall_impl; [|exact H]. intros r (tcp & su & -> & Hnd).
+  constructor; cbn; auto; try constructor; try lia.
+Qed.
+
+Definition reach (c : cfg) (rs : list rstate) (st : state) : Prop :=
+  readers_ok rs /\ exists steps, exec c (init rs) steps = Some st.
+
+Lemma reach_inv c rs st : reach c rs st -> sinv c st.
+Proof. intros (Hok & steps & H). eapply exec_inv; [|exact H]. now apply init_inv. Qed.
